@@ -8,7 +8,6 @@ package main
 
 import (
 	"bytes"
-	"context"
 	"encoding/hex"
 	"fmt"
 	"io"
@@ -92,6 +91,9 @@ func runWriteCase(c *WriteCase) *writeObs {
 	sink := newSink()
 	conn := websocket.VerifNewConn(sink, c.Client, websocket.VerifCopts{Enabled: c.Flate, ClientNoContextTakeover: c.CNCT, ServerNoContextTakeover: c.SNCT}, c.Threshold)
 	_, o.Thresh = websocket.VerifConnState(conn)
+	// no fixed deadline: only a standstill of 20 s counts as a hang
+	wd := newWatchdog(20 * time.Second)
+	defer wd.stop()
 	done := make(chan struct{})
 	go func() {
 		defer close(done)
@@ -100,8 +102,7 @@ func runWriteCase(c *WriteCase) *writeObs {
 				o.Panic = fmt.Sprint(r)
 			}
 		}()
-		ctx, cancel := context.WithTimeout(context.Background(), 30*time.Second)
-		defer cancel()
+		ctx := wd.ctx
 		hasPing := false
 		for _, op := range c.Ops {
 			if op.Kind == "ping" {
@@ -176,6 +177,7 @@ func runWriteCase(c *WriteCase) *writeObs {
 				}()
 				err = conn.Close(websocket.StatusCode(op.Code), string(unhx(op.Reason)))
 			}
+			wd.tick()
 			if err != nil {
 				o.Errs = append(o.Errs, trunc(err.Error(), 120))
 			} else {
@@ -185,8 +187,11 @@ func runWriteCase(c *WriteCase) *writeObs {
 	}()
 	select {
 	case <-done:
-	case <-time.After(40 * time.Second):
+	case <-time.After(10 * time.Minute):
 		o.Panic = "hang: the write program did not finish"
+	}
+	if wd.hung.Load() {
+		o.Panic = "hang: the write program made no progress for 20 s"
 	}
 	o.Wire = sink.snapshot()
 	cd := make(chan struct{})
